@@ -1,7 +1,9 @@
 import SaModel.Spec.Decode
 /-
-Structural validity of an array for a field (C03), spelled out independently of how arrays are built:
-data type equal to the field's (child names, nullability, metadata, parameters), offsets start at 0, never
+C03's specification: `WF f a = WFS f a ∧ typeOf a = f.dataType` (end of this file).
+`wf` / `WFS`: structural validity of an array for a field, spelled out independently of how arrays are built:
+data type compatible with the field's (child names, nullability, metadata, parameters — but NOT the union mode and NOT the
+nullability / metadata of a Map's entries field: exact type equality is `typeOf a = f.dataType`), offsets start at 0, never
 decrease and end at the child length, bitmaps cover the length and are present iff the field is nullable,
 fixed-size children hold n entries per row, type ids and dense offsets in range, dictionary keys in range,
 string data valid UTF-8, no null in a non-nullable field.
